@@ -2,7 +2,7 @@
 from ..engine import site_of
 from ..facts import op_place, op_local, op_const, AnchorError
 from ..callgraph import callee_is
-from ..mirutil import (root_place, op_root, deep_root, origin, defuse, calls_in, place_is_field, success_edges, field_writes,
+from ..mirutil import (propagates_error, root_place, op_root, deep_root, origin, defuse, calls_in, place_is_field, success_edges, field_writes,
                        aggregates, result_return_sites, dominated_by_ok, calls_on_field, loops_of, iter_source)
 from ..region import dominated_by_edges, switch_edges_on_variant, write_summary
 from ..decision import enum_switch_edges
@@ -321,6 +321,13 @@ def r5_retransmission_wiring(cx):
     rem = calls_on_field(prog, ("collections::HashMap::remove",), "GenericCloud", "pending_inits", bodies=[ch])
     cx.floor("pending-removals", len(rem), 1, "pending_inits.remove in crypto_housekeep")
     pes = A.method(prog, "PeerCrypto", "every_second")
+    cx.touch(pes)
+    # ... and the give-up error of InitState::every_second must reach it: PeerCrypto::every_second propagates it
+    inner = [bi for bi, ct in pes.calls() if any(d == es.did for _k, d in prog.cg.resolve(pes, ct))]
+    cx.floor("tick-calls", len(inner), 1, "InitState::every_second calls in PeerCrypto::every_second")
+    for bi in inner:
+        okp, why = propagates_error(pes, bi)
+        cx.check("tick-error-propagates", okp, site_of(pes, bi), "the handshake's give-up error is returned to the owner of the pending entry: " + why)
     ok = False
     for li in loops_of(ch):
         src = iter_source(ch, li)
